@@ -488,7 +488,9 @@ def delete_folder_loop(ctx):
 RAISING_EXT = {
     "os.listdir": "OSError", "os.path.getatime": "OSError", "os.path.getsize": "OSError", "os.stat": "OSError",
     "os.remove": "OSError", "os.unlink": "OSError", "os.rmdir": "OSError", "os.replace": "OSError", "os.rename": "OSError",
-    "os.scandir": "OSError", "shutil.move": "OSError", "shutil.copy": "OSError",
+    "os.scandir": "OSError", "shutil.move": "OSError", "shutil.copy": "OSError", "os.utime": "OSError", "os.lstat": "OSError",
+    "os.chmod": "OSError", "os.truncate": "OSError", "os.link": "OSError", "os.symlink": "OSError", "os.path.getmtime": "OSError",
+    "os.path.getctime": "OSError",
     # makedirs creates the parents one by one: a concurrent clear() removing a parent in between makes the next
     # mkdir fail with ENOENT (EEXIST is handled by mkdirp itself: C11.EEXIST)
     "os.makedirs": "FileNotFoundError", "os.mkdir": "FileNotFoundError",
